@@ -111,3 +111,7 @@ def run(ctx):
     # *time* dtype, so a list / tuple `ts` must be given the state's dtype (float64 states on a float32 grid reconstruct
     # only to 1e-3)
     ctx.guard(c12.r12_5)
+    # the reverse step inverts the forward step only if both are functions of their arguments: a step that updates a
+    # tensor it was handed (carried f / g, an SDE output, a Brownian increment) in place changes data it does not own
+    from . import c05
+    ctx.guard(c05.r05_5)
